@@ -870,10 +870,66 @@ def stub_module(dotted):
     if dotted == 'typing':
         m = StubModule('typing', {'Protocol': PROTOCOL, 'TypeVar': Builtin('TypeVar', lambda a, k: Opaque('TypeVar'))})
         return m
+    if dotted == 'json':
+        return StubModule('json', {'dumps': _B('json.dumps', lambda x, **kw: _text_dump('json', x)), 'loads': _B('json.loads', lambda t: _text_load('json', t)),
+                                   'load': Builtin('json.load', lambda a, k: _raise_oos('file I/O')), 'dump': Builtin('json.dump', lambda a, k: _raise_oos('file I/O'))})
+    if dotted == 'yaml':
+        return StubModule('yaml', {'dump': _B('yaml.dump', lambda x, **kw: _text_dump('yaml', x)), 'safe_load': _B('yaml.safe_load', lambda t: _text_load('yaml', t))})
     if dotted in ('pyvc.spec', 'pyvc'):
         from . import specsym
         return specsym.spec_module()
     return StubModule(dotted, {})
+
+
+# ------------------------------------------------------------------------------------------
+# assumed contract of json / yaml (DESIGN sec. 4): dumps/loads are inverse to each other on trees of
+# dict[str, ...], list, str, bool, int, finite float; anything else (complex, objects) is rejected by dumps.
+
+class SerialText:
+    def __init__(self, fmt, payload):
+        self.fmt, self.payload = fmt, payload
+
+    def __repr__(self):
+        return f'<{self.fmt} text>'
+
+
+def _raise_oos(msg):
+    raise OutOfSubset(msg)
+
+
+def _tree_copy(x, fmt, dumping):
+    x = force(x)
+    if x is None or isinstance(x, (bool, SBool, str, SLabel, int)):
+        return x
+    if isinstance(x, float):
+        return x
+    if isinstance(x, SNum):
+        if x.im is not None:
+            raise_py('TypeError', f'Object of type complex is not {fmt} serializable')
+        return x
+    if isinstance(x, complex):
+        raise_py('TypeError', f'Object of type complex is not {fmt} serializable')
+    if isinstance(x, (list, tuple)):
+        return [_tree_copy(v, fmt, dumping) for v in x]        # tuples come back as lists
+    if isinstance(x, IDict):
+        out = IDict()
+        for k, v in x.items():
+            if not isinstance(force(k), (str, SLabel)):
+                raise OutOfSubset('non-string dictionary key in a serialised tree')
+            out.items_.append((k, _tree_copy(v, fmt, dumping)))
+        return out
+    raise_py('TypeError', f'Object of type {type(x).__name__} is not {fmt} serializable')
+
+
+def _text_dump(fmt, x):
+    return SerialText(fmt, _tree_copy(x, fmt, True))
+
+
+def _text_load(fmt, t):
+    t = force(t)
+    if not isinstance(t, SerialText):
+        raise OutOfSubset('parsing of arbitrary text')
+    return _tree_copy(t.payload, fmt, False)
 
 
 # ------------------------------------------------------------------------------------------
